@@ -79,7 +79,7 @@ class MCurve(object):
                 else:
                     YY = Y * Y % p
                     S = 4 * X * YY % p
-                    M = (3 * X * X + a * pow(Z, 4, p)) % p
+                    M = (3 * X * X + a * pow(Z, 4, p)) % p if a else 3 * X * X % p
                     X3 = (M * M - 2 * S) % p
                     Y3 = (M * (S - X3) - 8 * YY * YY) % p
                     Z = 2 * Y * Z % p
@@ -113,6 +113,59 @@ class MCurve(object):
                         Z = Z * H % p
                         X, Y = X3, Y3
         if inf or Z == 0:
+            return INF
+        zi = pow(Z, -1, p)
+        zi2 = zi * zi % p
+        return (X * zi2 % p, Y * zi2 * zi % p)
+
+    def mul_g(self, k):
+        """k*G through a lazily built table of 2^i * G (affine): Jacobian accumulation of mixed additions only.
+        A third algorithm beside mul / mul_affine; cross-checked in the KATs."""
+        k %= self.n
+        if k == 0:
+            return INF
+        tab = self.__dict__.get("_gtab")
+        if tab is None:
+            tab = []
+            A = self.G
+            for _ in range(self.n.bit_length()):
+                tab.append(A)
+                A = self.add(A, A)
+            self._gtab = tab
+        p = self.p
+        X = Y = Z = None
+        i = 0
+        while k:
+            if k & 1:
+                x1, y1 = tab[i]
+                if X is None:
+                    X, Y, Z = x1, y1, 1
+                else:
+                    ZZ = Z * Z % p
+                    U2 = x1 * ZZ % p
+                    S2 = y1 * ZZ * Z % p
+                    H = (U2 - X) % p
+                    r = (S2 - Y) % p
+                    if H == 0:
+                        # cannot happen for distinct powers of two below a prime order, but stay correct
+                        zi = pow(Z, -1, p)
+                        acc = (X * zi * zi % p, Y * zi * zi * zi % p)
+                        Q = self.add(acc, tab[i])
+                        if Q is INF:
+                            X = Y = Z = None
+                        else:
+                            X, Y, Z = Q[0], Q[1], 1
+                    else:
+                        HH = H * H % p
+                        HHH = H * HH % p
+                        V = X * HH % p
+                        X3 = (r * r - HHH - 2 * V) % p
+                        Y = (r * (V - X3) - Y * HHH) % p
+                        Z = Z * H % p
+                        X = X3
+            k >>= 1
+            i += 1
+        if X is None:
             return INF
         zi = pow(Z, -1, p)
         zi2 = zi * zi % p
@@ -188,7 +241,7 @@ class MCurve(object):
     def sign_with_k(self, d, z, k):
         """textbook (r, s, R) for nonce k; r or s may be 0"""
         n = self.n
-        R = self.mul(k, self.G)
+        R = self.mul_g(k)
         if R is INF:
             return 0, 0, R
         r = R[0] % n
@@ -209,7 +262,7 @@ class MCurve(object):
         if not (1 <= r < n and 1 <= s < n):
             return False
         w = pow(s, -1, n)
-        X = self.add(self.mul(z * w % n, self.G), self.mul(r * w % n, Q))
+        X = self.add(self.mul_g(z * w % n), self.mul(r * w % n, Q))
         if X is INF:
             return False
         return X[0] % n == r
